@@ -238,6 +238,7 @@ class Builder:
         return sid
 
     def scenario(self, timeout=12, linger=0.3, **extra):
+        timeout = timeout * TIME_SCALE[0]
         scn = {"runners": self.runners, "payloads": self.payloads, "services": self.services,
                "main": self.main, "helpers": self.helpers, "timeout": timeout, "linger": linger,
                "meta": self.meta}
@@ -293,7 +294,8 @@ def rnd_failure(rng, allow_base=True):
     return ["raise", rng.randrange(N_EXC_EXCEPTION, N_EXC - 1)]   # SystemExit, CustomBase (GeneratorExit excluded)
 
 
-SETTLE = 0.45
+SETTLE = 0.45        # quiet period before a "settled" mark; stretched by main() on a loaded machine
+TIME_SCALE = [1.0]
 
 
 def add_bystanders(b, rng, n, helper_prog, pre_ok=True):
@@ -1023,6 +1025,12 @@ def corpus(pid):
 
 def gen_scenarios(pid, rng, n):
     out = corpus(pid)
+    for scn in out:          # hand-written scenarios: time bounds and quiet periods follow the machine's load, too
+        scn["timeout"] = scn.get("timeout", 10) * TIME_SCALE[0]
+        for prog in scn.get("helpers", []):
+            for st in prog:
+                if st[0] == "sleep" and st[1] >= 0.1:
+                    st[1] = st[1] * TIME_SCALE[0]
     fams, weights = zip(*MIX[pid])
     while len(out) < n:
         fam = rng.choices(fams, weights)[0]
@@ -1536,6 +1544,10 @@ def main(pid, coq_targets, tier=None, seed=None, replay=None, tie_targets=None, 
     except Exception:
         pass
     n = (N_THOROUGH if (chk.tier == "thorough" or escalate) else N_QUICK)[pid]
+    global SETTLE
+    TIME_SCALE[0] = common.load_scale()
+    SETTLE = 0.45 * TIME_SCALE[0]
+    chk.coverage["time_scale"] = round(TIME_SCALE[0], 2)
     rng = chk.rng("scenarios")
     scns = gen_scenarios(pid, rng, n)
     results = run_many(scns, tag="rt_" + pid)
